@@ -80,6 +80,7 @@ JudgeParse(rec) ==
           <<c.class = "reject" => ~ok, "malformed version accepted">>,
           <<SameObs(rec.res, rec.res_control), "UnmarshalControl disagrees with Parse">>,
           <<SameObs(rec.res, rec.res_text), "UnmarshalText disagrees with Parse">>,
+          <<SameObs(rec.res, rec.res_text_after), "a version parsed by UnmarshalText changes when the caller's byte slice is overwritten afterwards">>,
           <<SameObs(rec.res, rec.dirty_control), "UnmarshalControl into a receiver that already held a version keeps parts of the old value">>,
           <<SameObs(rec.res, rec.dirty_text), "UnmarshalText into a receiver that already held a version keeps parts of the old value">>,
           <<ok => RenderLaw(rec.rt.string, v, TRUE), "String() does not parse back to the same value">>,
